@@ -4,6 +4,7 @@ import (
 	"fmt"
 	"go/token"
 	"go/types"
+	"sort"
 	"strings"
 
 	"golang.org/x/tools/go/ssa"
@@ -29,8 +30,7 @@ func runC09(c *Ctx) {
 	dc := P.Method("ctree", "Tree", "DeleteConditional")
 	del := P.Method("ctree", "Tree", "Delete")
 	fLB := P.Field("ctree", "Tree", "leafBranch")
-	for n, ok := range map[string]bool{"internalDelete": id != nil, "walkInternalSorted": wis != nil, "walkInternal": wi != nil, "String": str != nil, "enumerateChildren": ec != nil,
-		"WalkDeleted": wd != nil, "DeleteConditional": dc != nil, "Delete": del != nil} {
+	for n, ok := range map[string]bool{"internalDelete": id != nil, "WalkDeleted": wd != nil, "DeleteConditional": dc != nil, "Delete": del != nil} {
 		if !ok {
 			c.Unresolved("C09.anchors", "ctree.(*Tree)."+n)
 		}
@@ -40,6 +40,44 @@ func runC09(c *Ctx) {
 	}
 	if len(c.Unres) > 0 {
 		return
+	}
+	// the walk rules have anchors of their own: when one of them no longer resolves those rules fail
+	// (closed), the delete / query / add rules - and every property that borrows them - are still decided
+	walkOK := true
+	ws := P.Method("ctree", "Tree", "WalkSorted")
+	for n, ok := range map[string]bool{"walkInternalSorted / WalkSorted": wis != nil || ws != nil, "walkInternal": wi != nil, "String": str != nil, "enumerateChildren": ec != nil} {
+		if !ok {
+			c.Unresolved("C09.sorted", "ctree.(*Tree)."+n)
+			walkOK = false
+		}
+	}
+	// the sorted walk merged into the plain one behind an iteration-order function: what runs below the
+	// exported WalkSorted is found by entering its callees (function-typed parameters resolved on the path)
+	var sortedFns []*ssa.Function
+	if wis != nil {
+		sortedFns = []*ssa.Function{wis}
+	} else if ws != nil {
+		seen := map[*ssa.Function]bool{}
+		e := &PPA{MaxVisits: 2, MaxPaths: 4000, NoAuto: true,
+			Inline: func(fr *Frame, call ssa.CallInstruction, callee *ssa.Function) bool {
+				if pkgPathOf(callee) != pkgPathOf(ws) {
+					return false
+				}
+				for x := fr; x != nil; x = x.Parent {
+					if x.Fn == callee {
+						return false // the recursion itself stays a call
+					}
+				}
+				return true
+			},
+			Watch: func(ev *Ev) bool { return false },
+			Probe: func(e *PPA, st *State, fr *Frame, in ssa.Instruction) { seen[fr.Fn] = true }}
+		e.Run(ws)
+		c.Paths += len(e.Paths)
+		for f := range seen {
+			sortedFns = append(sortedFns, f)
+		}
+		sort.Slice(sortedFns, func(i, j int) bool { return fnName(sortedFns[i]) < fnName(sortedFns[j]) })
 	}
 	c.Rule("C09.sorted", "walkInternalSorted and String: no callback invocation or recursive visit inside a range over a map; the keys accumulated in such a range are sorted before any other use")
 	c.Rule("C09.conditional", "internalDelete, leaf arm: f is called and deletion reported exactly on the true edge of condition(value); Delete passes a condition that is constantly true")
@@ -57,8 +95,10 @@ func runC09(c *Ctx) {
 	ctreeExposure(c, "C09.exposure")
 	contentWriters(c, "C09.content-writers")
 	// ---- sorted
-	_, nRoots := mapOrderAudit(c, "C09.sorted", []*ssa.Function{wis, str}, true)
-	c.Floor("C09.sorted/functions-ranging-over-children", nRoots, 2)
+	if walkOK {
+		_, nRoots := mapOrderAudit(c, "C09.sorted", append(append([]*ssa.Function{}, sortedFns...), str), true)
+		c.Floor("C09.sorted/functions-ranging-over-children", nRoots, 2)
+	}
 
 	// ---- conditional
 	deleteHonoursCondition(c, "C09.conditional")
@@ -393,8 +433,15 @@ func runC09(c *Ctx) {
 			}
 		}
 	}
+	if !walkOK {
+		return
+	}
 	// ---- visit once
-	for _, f := range []*ssa.Function{wi, wis, ec} {
+	walkFns := []*ssa.Function{wi}
+	if wis != nil {
+		walkFns = append(walkFns, wis)
+	}
+	for _, f := range append(append([]*ssa.Function{}, walkFns...), ec) {
 		c.Analysed(fnName(f))
 		var vp ssa.Value
 		for _, p := range f.Params {
@@ -424,46 +471,76 @@ func runC09(c *Ctx) {
 		c.Check(max <= 1 && !inLoopCall, "C09.visit-once", fnName(f), "visitor invoked at most once per activation", P.Pos(f.Pos()), fmt.Sprintf("max visitor calls on a path: %d, call inside a loop: %v", max, inLoopCall))
 	}
 	// ---- path copy
-	for _, f := range []*ssa.Function{wi, wis} {
-		pathP := ssa.Value(param(f, 1))
-		nRec := 0
-		for _, ci := range callsIn(f) {
-			if staticCallee(ci.Common()) != f {
-				continue
-			}
-			nRec++
-			arg := refArgs(ci.Common())[1]
-			ok := false
-			detail := Expr(arg)
-			// a same-package helper that returns a freshly allocated copy (childPath(path, name))
-			if call, isCall := arg.(*ssa.Call); isCall {
-				if g := staticCallee(&call.Call); g != nil && g.Pkg == f.Pkg && len(g.Blocks) > 0 {
-					au := NewAliasAudit(P)
-					ok = au.returnsFresh(g)
-					detail = fmt.Sprintf("%s returns a fresh slice=%v", fnName(g), ok)
-				}
-			}
-			if ac, isApp := isAppend(arg); isApp {
-				base := ac.Call.Args[0]
-				// the base must be a slice made in the loop, not the parameter
-				au := NewAliasAudit(P)
-				src := map[baseKind][]ssa.Value{}
-				au.sources(base, map[ssa.Value]bool{}, src)
-				fresh := len(src[baseForeign]) == 0 && len(src[baseChain]) == 0 && (len(src[baseSpare]) > 0 || len(src[baseExact]) > 0)
-				inLoop := true
-				for _, kinds := range [][]ssa.Value{src[baseSpare], src[baseExact]} {
-					for _, s := range kinds {
-						if def, okI := s.(ssa.Instruction); okI && !inLoopWithout(def.Block(), nil) {
-							inLoop = false
-						}
+	for _, f0 := range walkFns {
+		// the walk may be split into a locking wrapper and a body that recurse through each other: the
+		// per-child call is the call, inside a loop, from a member of that group to a member of it
+		group := map[*ssa.Function]bool{f0: true}
+		for _, ci := range callsIn(f0) {
+			if g := staticCallee(ci.Common()); g != nil && g.Pkg == f0.Pkg && g != f0 {
+				for _, cj := range callsIn(g) {
+					if staticCallee(cj.Common()) == f0 {
+						group[g] = true
 					}
 				}
-				ok = fresh && inLoop && base != pathP
-				detail = fmt.Sprintf("append base %s: made in the function=%v, inside the loop=%v", Expr(base), fresh, inLoop)
 			}
-			c.Check(ok, "C09.path-copy", fnName(f), "each child gets its own path slice", P.Pos(ci.Pos()), detail)
 		}
-		c.Floor("C09.path-copy/"+fnName(f), nRec, 1)
+		nRec := 0
+		for f := range group {
+			pathP := ssa.Value(param(f, 1))
+			var calls []ssa.CallInstruction
+			for _, g := range withAnon(f) {
+				for _, ci := range callsIn(g) {
+					if g != f {
+						// a per-child visit written as a closure handed to an iteration helper
+						if group[staticCallee(ci.Common())] {
+							calls = append(calls, ci)
+						}
+						continue
+					}
+					if !group[staticCallee(ci.Common())] || (len(group) > 1 && !inLoopWithout(ci.Block(), nil)) {
+						continue
+					}
+					calls = append(calls, ci)
+				}
+			}
+			for _, ci := range calls {
+				nRec++
+				arg := refArgs(ci.Common())[1]
+				ok := false
+				detail := Expr(arg)
+				// a same-package helper that returns a freshly allocated copy (childPath(path, name))
+				if call, isCall := arg.(*ssa.Call); isCall {
+					if g := staticCallee(&call.Call); g != nil && g.Pkg == f.Pkg && len(g.Blocks) > 0 {
+						au := NewAliasAudit(P)
+						ok = au.returnsFresh(g)
+						detail = fmt.Sprintf("%s returns a fresh slice=%v", fnName(g), ok)
+					}
+				}
+				if ac, isApp := isAppend(arg); isApp {
+					base := ac.Call.Args[0]
+					// the base must be a slice made in the loop, not the parameter
+					au := NewAliasAudit(P)
+					src := map[baseKind][]ssa.Value{}
+					au.sources(base, map[ssa.Value]bool{}, src)
+					fresh := len(src[baseForeign]) == 0 && len(src[baseChain]) == 0 && (len(src[baseSpare]) > 0 || len(src[baseExact]) > 0)
+					inLoop := true
+					for _, kinds := range [][]ssa.Value{src[baseSpare], src[baseExact]} {
+						for _, s := range kinds {
+							if def, okI := s.(ssa.Instruction); okI && !inLoopWithout(def.Block(), nil) {
+								// made anew by every invocation of the per-child closure counts as per iteration
+								if def.Parent() == f || def.Parent() != ci.Parent() {
+									inLoop = false
+								}
+							}
+						}
+					}
+					ok = fresh && inLoop && base != pathP
+					detail = fmt.Sprintf("append base %s: made in the function=%v, inside the loop=%v", Expr(base), fresh, inLoop)
+				}
+				c.Check(ok, "C09.path-copy", fnName(f), "each child gets its own path slice", P.Pos(ci.Pos()), detail)
+			}
+		}
+		c.Floor("C09.path-copy/"+fnName(f0), nRec, 1)
 	}
 }
 
@@ -511,6 +588,10 @@ func delRolesOf(id *ssa.Function) delRoles {
 		case *ssa.UnOp:
 			if x.Op != token.MUL {
 				return nil, false
+			}
+			// a parameter that a closure captures lives in a cell: the load of that cell is the parameter
+			if al, ok := x.X.(*ssa.Alloc); ok && spilled(al) {
+				return x.Type(), true
 			}
 			if fa, ok := x.X.(*ssa.FieldAddr); ok {
 				switch b := fa.X.(type) {
